@@ -321,4 +321,29 @@ example : ((runS tb0 ({} : Store Int)
        { kind := .RX, targets := [0], params := [.halfPi (-1)] }, { kind := .Z, targets := [0] },
        { kind := .RY, targets := [1], params := [.val 3] }]) := by decide
 
+/-- `each_parameter_its_value` on concrete data -/
+example : (mkEnv [1, 2] [5, 7] : Dict Int).get? 2 = some 7 := by decide
+
+/-- the success hypothesis of `in_params_preserved` / `transpile_bind_commute` holds on a concrete history -/
+example : (step tb0 (runS tb0 ({} : Store Int)
+      [.newL 2, .addParams 0 ["a"], .addPar 0 .prot [0, 1] [2, 3] (.par 1)]) (.tr [.pauli, .wrap .idInsert] 0)).2 = none := by
+  decide
+
+/-- `TablesSound` is consistent: the one-point monoid satisfies it (the intended instance is unitaries
+    modulo phase, for which the hypotheses are the kernel-checked obligations above) -/
+instance : PhaseMonoid Unit where
+  mul _ _ := ()
+  one := ()
+  equiv _ _ := True
+  mul_assoc _ _ _ := rfl
+  one_mul _ := rfl
+  mul_one _ := rfl
+  equiv_refl _ := trivial
+  equiv_symm _ := trivial
+  equiv_trans _ _ := trivial
+  mul_congr _ _ := trivial
+
+example : TablesSound (K := Int) (M := Unit) (fun _ => ()) tb0 :=
+  ⟨fun _ _ _ _ => trivial, fun _ _ _ _ => trivial, fun _ _ _ _ => trivial, fun _ _ _ _ _ => trivial⟩
+
 end QV.Props.C10
